@@ -1,9 +1,15 @@
 (** Protocol operations for C14 (see Lib/Val.v).
     [bitmap.Join]  [vs; w]        -> [words; unchanged]   (unchanged = 1 iff the input slice is as before the call)
     [bitmap.Getw]  [vs; w]        -> [Getw(Join(vs,w), i, w) for every i < len(vs)]
-    [bitmap.Slice] [ws; from; to] -> [words; unchanged] *)
+    [bitmap.Slice] [ws; from; to] -> [words; unchanged]
+    widening:
+    [bitmap.Masks]      [j]          -> [Mask[j]; RMask[j]; MaskUpto[j]; RMaskUpto[j]; Bit[j]; RBit[j]] (P per entry)
+    [bitmap.Getw/any]   [bm; i; w]   -> Getw(bm, i, w) on any bitmap and any int32 index (P = panic);
+                                        judged by the specification only while i*w fits int32
+    [bitmap.Join/split] [bm; w]      -> Join([Getw(bm, i, w) for i < 64*len(bm)/w], w); must be bm again *)
 From Coq Require Import ZArith List Bool String.
-From Low Require Import Lib.Bits Lib.BitSeq Lib.Val Model.BitmapJoin Spec.JoinSpec.
+From Low Require Import Lib.Bits Lib.BitSeq Lib.Val Model.BitmapJoin Spec.JoinSpec
+  Model.BitmapMask Spec.MaskSpec Model.BitmapGetw32 Spec.GetwSpec.
 Import ListNotations.
 Open Scope string_scope.
 Open Scope Z_scope.
@@ -16,6 +22,9 @@ Definition indices {A} (l : list A) : list Z := map Z.of_nat (seq 0 (List.length
 (** the model leaves its argument unchanged by construction (values are immutable): flag 1 *)
 Definition with_flag (o : option (list Z)) : val :=
   match o with Some r => VL [vzs r; VZ 1] | None => VPanic end.
+
+Definition vopt_z (o : option Z) : val := match o with Some z => VZ z | None => VPanic end.
+Definition vopt_zs (o : option (list Z)) : val := match o with Some r => vzs r | None => VPanic end.
 
 Definition ops_C14 : list opdef := [
   {| op_name := "bitmap.Join";
@@ -58,5 +67,34 @@ Definition ops_C14 : list opdef := [
            | Some ws, Some from, Some to, VL [r; VZ 1] =>
                match as_zs r with Some r => spec_Slice_ok ws from to r | None => false end
            | _, _, _, _ => false end
-       | _ => false end |}
+       | _ => false end |};
+  {| op_name := "bitmap.Masks";
+     op_run := fun a => match a with
+       | [VZ j] => VL (map vopt_z (mask_lookups initMasks j))
+       | _ => VBad end;
+     op_spec := fun_spec (fun a => match a with
+       | [VZ j] => VL (map vopt_z (spec_mask_lookups j))
+       | _ => VBad end) |};
+  {| op_name := "bitmap.Getw/any";
+     op_run := fun a => match a with
+       | [bm; i; w] => match as_zs bm, as_z i, as_z w with
+           | Some bm, Some i, Some w =>
+               if words_okb bm && width_okb w && fits_i32 i then vopt_z (Getw32 bm i w) else VBad
+           | _, _, _ => VBad end
+       | _ => VBad end;
+     op_spec := fun a obs => match a with
+       | [bm; i; w] => match as_zs bm, as_z i, as_z w with
+           | Some bm, Some i, Some w =>
+               if fits_i32 (i * w) then val_eqb (vopt_z (spec_Getw_any bm i w)) obs else true
+           | _, _, _ => false end
+       | _ => false end |};
+  {| op_name := "bitmap.Join/split";
+     op_run := fun a => match a with
+       | [bm; w] => match as_zs bm, as_z w with
+           | Some bm, Some w => if words_okb bm && width_okb w then vopt_zs (SplitJoin bm w) else VBad
+           | _, _ => VBad end
+       | _ => VBad end;
+     op_spec := fun_spec (fun a => match a with
+       | [bm; w] => bm
+       | _ => VBad end) |}
 ].
